@@ -279,7 +279,7 @@ Proof.
   destruct (first_answer a); reflexivity.
 Qed.
 
-(* every admitted attempt performs exactly one lookup, every refused one none: for every request
+(* every attempt that is let through performs exactly one lookup, every refused one none: for every request
    sequence and EVERY answer stream of the backend (good, bad, failing always or now and then) *)
 Theorem one_lookup_per_token c : forall (reqs : list (entry * Z * answers)) s,
   map lookups (login_run_tries code_tries c s reqs)
